@@ -345,6 +345,7 @@ enum Edit {
     WrongSample,         // genuine, proven, a neighbour block instead of a sampled one
     GapReorg,            // genuine, proven, right count and end, but the reorg section has a gap
     ForgedTd,            // a header's parent chain root total difficulty altered
+    PrivateChainRoot,    // the genuine last header with the chain root (same difficulty, same end) of a private branch, whose headers and MMR proof follow
     Unsolicited,
 }
 
@@ -1026,6 +1027,7 @@ fn run_history(rep: &mut Report, prop: &str, seed: u64, len: usize) -> HistoryOu
                         Edit::WrongSample,
                         Edit::GapReorg,
                         Edit::ForgedTd,
+                        Edit::PrivateChainRoot,
                     ])
                     .clone()
                 };
@@ -1192,6 +1194,38 @@ fn run_history(rep: &mut Report, prop: &str, seed: u64, len: usize) -> HistoryOu
                             }
                         } else {
                             effective = false;
+                        }
+                    }
+                    Edit::PrivateChainRoot => {
+                        // a private branch forking off below the requested last header, block by
+                        // block with the epochs / targets / timestamps of the genuine chain: its
+                        // chain root has the genuine total difficulty and end number
+                        effective = false;
+                        if let Some(l) = chain.number_of_hash(&base_req.last_hash()) {
+                            let start_n: u64 = base_req.start_number().unpack();
+                            if l >= 3 && start_n + 1 < l {
+                                let at = (l - 1 - rng.below((l - 1 - start_n).min(3))).max(start_n).max(1);
+                                if at < l {
+                                    let mut f = chain.fork(at, 555);
+                                    for n in at + 1..=l {
+                                        let g = chain.header(n);
+                                        f.append(super::simchain::BlockPlan {
+                                            epoch: g.epoch(),
+                                            compact_target: g.compact_target(),
+                                            timestamp: g.timestamp(),
+                                            txs: Vec::new(),
+                                            nonce: 7,
+                                        });
+                                    }
+                                    let req2 = base_req.clone().as_builder().last_hash(f.block(l).hash()).build();
+                                    if let Ok(m) = server::get_last_state_proof(&f, &req2, &opts) {
+                                        let lh = chain.verifiable_header(l).as_builder().parent_chain_root(m.last_header().parent_chain_root()).build();
+                                        msg = m.as_builder().last_header(lh).build();
+                                        hs = msg.headers().into_iter().collect();
+                                        effective = true;
+                                    }
+                                }
+                            }
                         }
                     }
                     Edit::ForgedTd if !hs.is_empty() => {
